@@ -113,11 +113,19 @@ func genConc(prop string, seed uint64, run int, p concProfile, av avoid) *Case {
 			cs.Indexes = append(cs.Indexes, *ix)
 		}
 	}
+	sharedKeys := keyed && !av.concurrentKeyInsert && r.Chance(p.sharedKeys)
+	if sharedKeys {
+		cs.Cfg.Params["shared_keys"] = 1
+	}
 	// set-up transaction: give every stable row a value in every column
 	vc := g.valueCols()
 	setup := &TxnProg{}
 	if keyed {
-		for i := 0; i < nStable && i < len(g.keys); i++ {
+		nk := len(g.keys)
+		if sharedKeys {
+			nk = nk / 2 // the other half of the alphabet is inserted concurrently by the writers
+		}
+		for i := 0; i < nk; i++ {
 			op := Op{Kind: "insertkey", Key: g.keys[i]}
 			for _, c := range vc {
 				op.Writes = append(op.Writes, Write{Col: c.Name, Val: g.genVal(c)})
@@ -148,7 +156,6 @@ func genConc(prop string, seed uint64, run int, p concProfile, av avoid) *Case {
 	if p.linkDelay > 0 {
 		cs.Cfg.Params["link_delay"] = []int{0, 2, 10, p.linkDelay}[r.Intn(4)]
 	}
-	sharedKeys := keyed && r.Chance(p.sharedKeys)
 
 	genOps := func(role string, ti int) []Op {
 		var ops []Op
@@ -199,6 +206,9 @@ func genConc(prop string, seed uint64, run int, p concProfile, av avoid) *Case {
 					key = fmt.Sprintf("t%d-%d", ti, r.Intn(3))
 				}
 				kinds := []string{"insertkey", "upsertkey", "upsertkey", "querykey", "deletekey"}
+				if sharedKeys {
+					kinds = []string{"insertkey", "upsertkey", "upsertkey", "querykey"}
+				}
 				kind := kinds[r.Intn(len(kinds))]
 				if kind == "querykey" || (kind == "upsertkey" && r.Chance(0.5)) {
 					key = g.keys[r.Intn(len(g.keys))] // existing stable key: update in place
